@@ -305,6 +305,11 @@ class Eval:
         raise Untestable('form ' + h)
 
 CONSTS = {'b64url': 1, 'b64std': 2}
+_D = 'definitional: names what each implementation in /repo must compute; the implementations are verified against it (not a library assumption)'
+DEFINITIONAL = {'hdef-fmt': _D, 'hdef-valid': _D, 'hdef-check': _D, 'hdef-gen': _D, 'hasher-def': _D, 'policyok-def': _D,
+                'fields': 'recursive definition of the wire format (spec side of C13)', 'fields-def': 'recursive definition of the wire format (spec side of C13)',
+                'wirep': 'recursive definition of the wire format (spec side of C13)', 'wirep-def': 'recursive definition of the wire format (spec side of C13)',
+                'frest-unfold': 'recursive definition of the wire format (spec side of C13)'}
 
 # ---------------------------------------------------------------- corpus
 class Corpus:
@@ -412,6 +417,8 @@ def main():
             if only and name not in only: continue
             if name in doms and doms[name] is None:
                 results.append({'kind': 'axiom', 'name': name, 'status': 'not-testable', 'why': 'about ghost/random state'}); continue
+            if name in DEFINITIONAL:
+                results.append({'kind': 'axiom', 'name': name, 'status': 'not-covered', 'why': DEFINITIONAL[name]}); continue
             if name not in doms:
                 results.append({'kind': 'axiom', 'name': name, 'status': 'not-covered'}); continue
             n = bad = skipped = 0
@@ -438,6 +445,8 @@ def main():
                             bad += 1
                             first_bad = first_bad or env
                 st = 'holds-on-corpus' if bad == 0 else 'CONTRADICTED'
+                if n == 0:
+                    results.append({'kind': 'axiom', 'name': name, 'status': 'not-testable', 'why': 'no instance could be evaluated'}); continue
                 results.append({'kind': 'axiom', 'name': name, 'status': st, 'instances': n, 'skipped': skipped, **({'counterexample': first_bad} if first_bad else {})})
                 if bad: failures.append('axiom ' + name + ' false for ' + json.dumps(first_bad))
             except Untestable as u:
